@@ -196,28 +196,32 @@ RestoreOK ==
      IN
      IF src = {} THEN Reject("C11", "restore: returned a solver although no checkpoint had been completed")
      ELSE IF ~T.fullconfig /\ Ev.route = "restore" THEN Reject("C10", "restore: succeeded without a configuration file")
-     ELSE IF Ev.iter # chosen
+     \* with a writer of the same process still in flight the latest step may have been committed after the
+     \* listing was taken: then any save point at or beyond the listed maximum is the latest completed step
+     ELSE IF Ev.inflight /\ Ev.req = 0 /\ ~(Ev.iter >= chosen /\ Ev.iter \in (src \cup due[Ev.src]))
+       THEN Reject("C10", "restore: the restored iteration is not a completed save point at or beyond the listed latest step")
+     ELSE IF ~(Ev.inflight /\ Ev.req = 0) /\ Ev.iter # chosen
        THEN Reject("C10", "restore: the restored iteration is not the requested / latest completed step")
      ELSE IF Ev.vtag = Bad \/ Ev.gtag = Bad \/ Ev.htag = Bad
        THEN Reject("C11", "restore: restored arrays match no iterate of the run (torn or mixed checkpoint)")
-     ELSE IF ~FieldsAre(chosen)
+     ELSE IF ~FieldsAre(Ev.iter)
        THEN Reject("C11", "restore: restored fields are not the ones held at the iteration the checkpoint carries")
      ELSE IF Ev.hidxok = FALSE THEN Reject("C10", "restore: history index / period not restored")
-     ELSE IF T.expectpolicy /\ Ev.ptag # chosen
+     ELSE IF T.expectpolicy /\ Ev.ptag # Ev.iter
        THEN Reject("C10", "restore: stored policy not restored")
      ELSE IF Ev.cfgeq = FALSE THEN Reject("C10", "restore: rebuilt configuration differs from the original")
      ELSE IF Ev.dtypeok = FALSE THEN Reject("C10", "restore: restored values have a different dtype")
      ELSE IF Ev.route = "restore" /\ (Ev.nfreq # Ev.wantfreq \/ Ev.nkeep # Ev.wantkeep \/ Ev.nasync # Ev.wantasync \/ Ev.ndir # Ev.wantdir)
        THEN Reject("C10", "restore: overrides (directory, frequency, retention, async) did not take effect as given")
-     ELSE /\ iter' = chosen /\ incall' = FALSE
+     ELSE /\ iter' = Ev.iter /\ incall' = FALSE
           /\ dir' = Ev.ndir /\ freq' = Ev.nfreq /\ keep' = Ev.nkeep /\ isasync' = Ev.nasync
-          /\ restoredOlder' = (Ev.ndir = Ev.src /\ chosen < SetMax(src))
+          /\ restoredOlder' = (Ev.ndir = Ev.src /\ Ev.iter < SetMax(src))
           /\ due' = IF Ev.ndir = 2 THEN [due EXCEPT ![2] = {}] ELSE due
           /\ lastCall' = 0 /\ prevCall' = 0 /\ expectSave' = FALSE
           /\ durable' = IF Ev.ndir = 2 THEN 0 ELSE durable
-          /\ rfrom' = chosen
+          /\ rfrom' = Ev.iter
           \* reported without stopping the trace (the rest is still judged): C10's check turns it into a verdict
-          /\ (\E x \in savedp : x[1] = chosen /\ x[2] # Ev.pdig) =>
+          /\ (\E x \in savedp : x[1] = Ev.iter /\ x[2] # Ev.pdig) =>
                 PrintT(<<"DRIFT", tid, "C10 restore: the policy field differs from the one handed to save() at that step">>)
           /\ Step
           /\ UNCHANGED <<onDisk, crashed, savedp>>
